@@ -284,7 +284,7 @@ pub fn run(ctx: &mut Ctx) -> (&'static str, String, bool) {
     }
 
     // ---- long sessions: several times the 6120-byte buffer, hostile random partitions -----------
-    let n_long = if miri { if shard < 4 { 1 } else { 0 } } else { ctx.tier.pick(48u64, 1200u64) };
+    let n_long = if miri { if shard < 4 { 1 } else { 0 } } else { ctx.tier.pick(160u64, 6000u64) };
     let results: Vec<(Part, usize, usize, usize)> = (0..n_long)
         .into_par_iter()
         .map(|i| {
